@@ -7,6 +7,7 @@ import (
 	"bytes"
 	"crypto/x509"
 	"fmt"
+	"github.com/WICG/webpackage/go/internal/cbor"
 	"io"
 	"strings"
 	"testing/iotest"
@@ -79,8 +80,42 @@ func toChain(es []elem) certurl.CertChain {
 
 var nCase int
 
+// elementRoute uses the exported per-element entry points (AugmentedCertificate.EncodeTo and
+// DecodeAugmentedCertificateFrom, what a program embedding certificates in another CBOR structure calls): each element's
+// map must be the very bytes it has inside the chain, and decode back to the same certificate, OCSP response and SCT list.
+func elementRoute(r *mon.Run, es []elem, key string) {
+	for i, e := range es {
+		one := refEncode([]elem{e})
+		want := one[len(rcbor.ArrayHead(2))+len(rcbor.Text(magic)):]
+		var buf bytes.Buffer
+		var err error
+		var back *certurl.AugmentedCertificate
+		p, pv := r.Call(fmt.Sprintf("element/%d", i), nil, func() {
+			if err = (&certurl.AugmentedCertificate{Cert: e.cert, OCSPResponse: e.ocsp, SCTList: e.sct}).EncodeTo(cbor.NewEncoder(&buf)); err == nil {
+				back, err = certurl.DecodeAugmentedCertificateFrom(cbor.NewDecoder(bytes.NewReader(append([]byte{}, buf.Bytes()...))))
+			}
+		})
+		switch {
+		case p || err != nil:
+			r.Eval("ELEMENT-ROUTE-FAILED")
+			r.Violation(key+":element", fmt.Sprintf("element %d: EncodeTo / DecodeAugmentedCertificateFrom failed: %v %v", i, err, pv), nil)
+		case !bytes.Equal(buf.Bytes(), want):
+			r.Eval("ELEMENT-ROUTE-BYTES")
+			r.Violation(key+":element-bytes", fmt.Sprintf("element %d: EncodeTo wrote %s, inside a chain the element is %s", i, mon.Short(buf.Bytes()), mon.Short(want)), nil)
+		case !bytes.Equal(back.Cert.Raw, e.cert.Raw) || !bytes.Equal(back.OCSPResponse, e.ocsp) || !bytes.Equal(back.SCTList, e.sct) || (back.OCSPResponse == nil) != (e.ocsp == nil) || (back.SCTList == nil) != (e.sct == nil):
+			r.Eval("ELEMENT-ROUTE-VALUE")
+			r.Violation(key+":element-value", fmt.Sprintf("element %d does not decode back to what was encoded", i), nil)
+		default:
+			r.Eval("element-route-ok")
+		}
+	}
+}
+
 func checkChain(r *mon.Run, es []elem, class string, sampleEvery int) {
 	nCase++
+	if nCase%4 == 1 {
+		elementRoute(r, es, "cc:"+class+":"+describe(es))
+	}
 	d := describe(es)
 	key := "cc:" + class + ":" + d
 	var buf bytes.Buffer
